@@ -35,7 +35,7 @@ def err_str(s):
     return s is not None and s.startswith('(err ')
 
 def has_bad_token(s):
-    return any(tok in s for tok in ('PANIC', 'OVERRUN', 'FUEL', 'RESUMED', 'FOREIGN', 'BAD-DEBUG', 'REPARSE-FAILED'))
+    return any(tok in s for tok in ('PANIC', 'HANG', 'OVERRUN', 'FUEL', 'RESUMED', 'FOREIGN', 'BAD-DEBUG', 'REPARSE-FAILED'))
 
 def ser(t):
     if isinstance(t, list):
@@ -134,22 +134,89 @@ class Prop:
 BUILD_BUFS = 'e0:aa,e0:55,e-1:aa,e5:55,a0:00,a3:aa'
 
 def big_members(g, kinds, tier='quick'):
-    """packets above 64 KiB (length field 0x4000 and more): the 16-bit length arithmetic of the writers"""
+    """packets around and above 64 KiB, by total size: 65536 (length field 0x3fff), 65540 (0x4000), 262144
+    (0xffff, the largest): the 16-bit length arithmetic of the writers, and of the parsers on the way back"""
     out = []
-    sizes = [65536] if tier == 'quick' else [65532, 65536, 131072, 262140]
-    for sz in sizes:
-        if 'app' in kinds:
-            out.append('app 0 %d %d 6e616d65 %s' % (g.ssrc(), g.r.randrange(32), '00' * (sz - 8)))
-        if 'unk' in kinds:
-            out.append('unk 0 199 %d %s' % (g.r.randrange(32), '00' * sz))
-        if 'custom' in kinds:
-            out.append('custom 199 4 %d 0 %s' % (g.r.randrange(32), '00' * sz))
+    if tier == 'quick':
+        plan = {'app': [65536, 262144], 'unk': [65540], 'custom': [65536], 'fb': [262144]}
+    else:
+        plan = {'app': [65532, 65536, 65540, 131072, 262140, 262144], 'unk': [65536, 65540, 262144],
+                'custom': [65536, 131072, 262144], 'fb': [65536, 262144]}
+    for total in plan['app'] if 'app' in kinds else []:
+        out.append('app 0 %d %d 6e616d65 %s' % (g.ssrc(), g.r.randrange(32), '00' * (total - 12)))
+    for total in plan['unk'] if 'unk' in kinds else []:
+        out.append('unk 0 199 %d %s' % (g.r.randrange(32), '00' * (total - 4)))
+    for total in plan['custom'] if 'custom' in kinds else []:
+        out.append('custom 199 4 %d 0 %s' % (g.r.randrange(32), '00' * (total - 4)))
+    for total in plan['fb'] if 'fb' in kinds else []:
+        out.append('fb p 0 1 2 rpsi 96 %s 0' % ('5a' * (total - 14)))
+    if 'sdes' in kinds:
+        # one chunk of more than 64 KiB (chunk-level alignment arithmetic)
+        out.append('sdes 0 1 7 256 %s' % ' '.join('1 - %s' % ('61' * 255) for _ in range(256)))
+    return out
+
+def systematic_members(kinds):
+    """a fixed small-scope sweep (no randomness): every length residue, boundary length and boundary value the
+    writers and parsers branch on, so that detection of a change at one of those points does not depend on the
+    seed.  About 250 members."""
+    out = []
+    if 'fb' in kinds:
+        for ln in (0, 1, 2, 3, 4, 5, 6, 7, 8, 9, 254):
+            for ov in ((0,) if ln == 0 else (0, 1, 7, 8)):
+                for pad in (0, 4):
+                    out.append('fb p %d 1 2 rpsi %d %s %d' % (pad, 96 if ov else 127, 'a5' * ln if ln else '-', ov))
+        for seqs in ([0], [65535], [0, 65535], [0, 16], [0, 17], [65519, 65535], [65520, 65535, 0], [65530, 0, 3], [1, 2, 17, 18, 34],
+                     [65534, 65535, 0, 1], list(range(0, 40, 3))):
+            out.append('fb t 0 1 2 nack %d %s' % (len(seqs), ' '.join(map(str, seqs))))
+            out.append('fb t 8 1 2 nack %d %s' % (len(seqs), ' '.join(map(str, seqs))))
+        for k in (1, 2, 3):
+            out.append('fb p 0 1 2 fir %d %s' % (k, ' '.join('%d %d' % (i + 1, 255 - i) for i in range(k))))
+            out.append('fb p 4 1 2 sli %d %s' % (k, ' '.join('%d %d %d' % (8191 - i, i, 63 - i) for i in range(k))))
+        out += ['fb p 0 1 2 pli', 'fb p 252 4294967295 0 pli', 'fb p 0 1 2 fir 2 7 1 7 2', 'fb p 0 1 2 fir 2 7 255 7 0']
+    if 'app' in kinds:
+        for nl in range(5):
+            for dl in (0, 4):
+                for pad in (0, 4):
+                    out.append('app %d 305419896 %d %s %s' % (pad, 31 if nl == 4 else nl, '41' * nl if nl else '-', 'c3' * dl if dl else '-'))
+    if 'bye' in kinds:
+        for ns in (0, 1, 2, 31):
+            for rl in (0, 1, 2, 3, 4, 5, 254, 255):
+                for pad in ((0, 4, 252) if rl in (0, 3, 255) else (0, 4)):
+                    out.append(('bye %d %d %s %s' % (pad, ns, ' '.join(str(16777216 * (i + 1) + i) for i in range(ns)), '62' * rl if rl else '-')).replace('  ', ' '))
+    if 'sdes' in kinds:
+        for vl in range(0, 9):
+            out.append('sdes 0 1 1 1 1 - %s' % ('61' * vl if vl else '-'))
+            out.append('sdes 4 2 1 1 2 - %s 66 1 1 - 62' % ('61' * vl if vl else '-'))
+        for pl, vl in ((0, 0), (0, 1), (1, 0), (1, 1), (2, 3), (3, 0), (4, 4), (252, 2), (253, 0), (253, 1), (254, 0), (0, 254), (100, 154)):
+            out.append('sdes 0 1 255 1 8 %s %s' % ('70' * pl if pl else '-', '76' * vl if vl else '-'))
+            out.append('sdes 8 2 1 2 1 - 6162 8 %s %s 0 0' % ('70' * pl if pl else '-', '76' * vl if vl else '-'))
+        out += ['sdes 0 0', 'sdes 4 0', 'sdes 0 3 0 0 0 0 0 0', 'sdes 0 1 1 2 1 - %s 2 - %s' % ('61' * 255, '62' * 255)]
+    if 'sr' in kinds:
+        rb = lambda i: '%d %d %d %d %d %d %d' % (i + 1, 255 - i, 16777215 - i, 4294967295 - i, i, 0 if i % 2 else 4294967295, i + 7)
+        for nb in (0, 1, 2, 10, 11, 21, 31):
+            for pad in ((0, 4, 16, 24, 232, 252) if nb in (0, 1, 10, 31) else (0, 12)):
+                out.append(('sr %d 1 18446744073709551615 2 3 4 %d %s' % (pad, nb, ' '.join(rb(i) for i in range(nb)))).strip())
+    if 'rr' in kinds:
+        rb = lambda i: '%d %d %d %d %d %d %d' % (i + 1, i, i, i, 4294967295 - i, 0, 1 + i)
+        for nb in (0, 1, 2, 10, 11, 21, 31):
+            for pad in ((0, 4, 16, 24, 232, 252) if nb in (0, 1, 10, 31) else (0, 12)):
+                out.append(('rr %d 4294967295 %d %s' % (pad, nb, ' '.join(rb(i) for i in range(nb)))).strip())
+    if 'unk' in kinds:
+        for pad in (0, 4, 252):
+            for dl in (0, 4, 8):
+                out.append('unk %d 199 %d %s' % (pad, 31 if dl else 0, 'ee' * dl if dl else '-'))
+    if 'custom' in kinds:
+        for mn in (4, 8, 12, 28):
+            for pad in (0, 4, 248, 252):
+                out.append('custom 199 %d 1 %d %s' % (mn, pad, 'dd' * (mn - 4) if mn > 4 else '-'))
+                out.append('custom 207 %d 31 %d %s' % (mn, pad, 'dd' * (mn + 240 - 4)))
     return out
 
 def gen_builds(g, n, kinds, invalid_ratio=0.2, bufs=BUILD_BUFS, big=True, tier='quick'):
     out = []
     if big:
         out += ['build %s %s' % (bufs.split(',')[0] if bufs != '-' else '-', m) for m in big_members(g, kinds, tier)]
+        out += ['build %s %s' % (bufs, m) for m in systematic_members(kinds)]
     for _ in range(n):
         k = g.pick(kinds)
         valid = not g.chance(invalid_ratio)
@@ -192,13 +259,18 @@ def gen_parse_inputs(g, h, n, kinds=None, malformed_ratio=0.35, with_padding=Tru
             members.append(g.sdes(valid=True, pad=g.pick([0, 0, 4, 8])))
         else:
             members.append(getattr(g, k)(valid=True, pad=g.pick([0, 0, 0, 4, 8, 252])))
+    nrand = len(members)
+    members += [m for m in systematic_members(kinds) if not m.startswith('custom')]
     imgs = h.images(members)
     out = []
-    for m, img in zip(members, imgs):
+    for i, (m, img) in enumerate(zip(members, imgs)):
         if img is None or len(img) > 70000:
             continue
         e = entry_for_member(m)
         mn = ENTRY_MIN.get(e, 4)
+        if i >= nrand:
+            out.append((e, img))       # the fixed sweep is given as is
+            continue
         if g.chance(malformed_ratio):
             if e == 'bye' and g.chance(0.5):
                 b = mutate_bye(g, img)
@@ -267,6 +339,7 @@ class RoundTrip(Prop):
         out = ['build e0:%s %s' % (g.pick(['00', '00', 'ff', 'aa', '55', '6c', '01', '80', 'e0']),
                                    self.gen_member(g, not g.chance(0.1))) for _ in range(n)]
         out += ['build e0:aa ' + m for m in big_members(g, self.members, tier)]
+        out += ['build e0:%s %s' % (f, m) for m in systematic_members(self.members) for f in ('00', 'ff')]
         # the same kinds of configuration reached through other call paths (owned variants, PacketBuilder,
         # setters repeated): what is accepted must still parse back to the final configuration
         from . import props2
@@ -353,13 +426,33 @@ class C07(Prop):
     known_classes = ('oversize',)
     def cases(self, g, tier, h):
         n = 500 if tier == 'quick' else 15000
-        return gen_builds(g, n, ALL_LEAVES + ['compound'], invalid_ratio=0.05, bufs='e0:aa,e0:55')
+        out = gen_builds(g, n, ALL_LEAVES + ['compound'], invalid_ratio=0.05, bufs='e0:aa,e0:55')
+        # the public chunk- and item-level writers of SDES
+        for _ in range(n // 8):
+            out.append('chunk e0:aa,e0:55,e4:ff ' + g.chunk(valid=not g.chance(0.05)))
+            out.append('item e0:aa,e0:55,e4:ff ' + g.item(valid=not g.chance(0.05), nonzero=False))
+        return out
     def relevant(self, line, impl, model):
+        if kind_of(line) in ('chunk', 'item'):
+            return True
         return kind_of(line) == 'build' and (ok_str(impl.get('size')) or ok_str(model.get('size')))
     def proj(self, line, obs):
         return (obs.get('size'), tuple((r, canon_fir_bytes(line, b) if b is not None else None)
                                        for r, b in writes_of(obs.get('writes'))))
     def oracle(self, line, impl, model):
+        if kind_of(line) in ('chunk', 'item'):
+            try:
+                want = S.hexbytes(model['spec.image'])
+            except ValueError:
+                return []       # a length that does not fit its octet: not a representable configuration (C16)
+            fails = []
+            for r, b in writes_of(impl.get('writes')):
+                if b is None or not r.startswith('(ok'):
+                    continue          # invalid configuration or too small a buffer: C06 / C16 / C17
+                n = size_n(r)
+                if b[:n] != want:
+                    fails.append('%s-level writer wrote %s, the RFC image is %s' % (kind_of(line), b[:n].hex()[:200], want.hex()[:200]))
+            return fails
         if not ok_str(impl.get('size')):
             return []
         n = size_n(impl['size'])
@@ -434,6 +527,16 @@ class C17(Prop):
 PARSE_ENTRIES = ['compound', 'packet', 'app', 'bye', 'rr', 'sdes', 'sr', 'tfb', 'pfb', 'unknown', 'rb',
                  'fci:nack', 'fci:fir', 'fci:sli', 'fci:rpsi', 'fci:pli']
 
+def huge_inputs(g):
+    """inputs longer than the largest packet (262144 bytes): a short packet followed by 2^18 more bytes, and the
+    largest length field on a short input - 16-bit arithmetic on lengths in the shared header checks"""
+    z = bytes(262144)
+    return ['parse bye %s' % hx(bytes([0x80, 203, 0, 0]) + z),
+            'parse rr %s' % hx(bytes([0x80, 201, 0, 1]) + g.rawbytes(4) + z),
+            'parse packet %s' % hx(bytes([0x80, 204, 0, 2]) + g.rawbytes(8) + z),
+            'parse app %s' % hx(bytes([0x80, 204, 0xff, 0xff]) + g.rawbytes(8)),
+            'parse compound %s' % hx(bytes([0x80, 201, 0xff, 0xff]) + g.rawbytes(4))]
+
 def gen_parse_mixed(g, h, n, tier):
     """inputs for every parsing entry point: valid images, mutations, raw random bytes, cross-entry"""
     out = []
@@ -449,6 +552,9 @@ def gen_parse_mixed(g, h, n, tier):
             out.append('parse %s %s' % (g.pick(PARSE_ENTRIES), hx(b)))
         elif c < 0.7 and len(b) > 12:
             out.append('parse %s %s' % (g.pick(['fci:nack', 'fci:fir', 'fci:sli', 'fci:rpsi', 'fci:pli']), hx(b[12:])))
+        elif c < 0.8:
+            # a packet of a known type read through the unknown-packet parser and converted from there
+            out.append('parse unknown %s' % hx(b))
     for _ in range(n // 4):
         ln = g.pick([0, 1, 2, 3, 4, 5, 7, 8, 11, 12, 23, 24, 25, 27, 28, 29, g.r.randint(0, 64)])
         b = bytearray(g.rawbytes(ln))
@@ -462,7 +568,7 @@ def gen_parse_mixed(g, h, n, tier):
         b = bytearray(g.rawbytes(ln))
         e = g.pick(['fci:nack', 'fci:fir', 'fci:sli', 'fci:rpsi', 'fci:pli'])
         if e == 'fci:rpsi' and ln and g.chance(0.6):
-            b[0] = g.pick([0, 7, 8, 9, 8 * max(0, ln - 2), 8 * max(0, ln - 2) + 8, 255])
+            b[0] = min(255, g.pick([0, 7, 8, 9, 8 * max(0, ln - 2), 8 * max(0, ln - 2) + 8, 255]))
         out.append('parse %s %s' % (e, hx(b)))
     return out
 
@@ -477,7 +583,7 @@ class C01(Prop):
         big = bytes([0x80 | g.r.randrange(32), 204, 0xff, 0xff]) + g.rawbytes(8) + bytes(262144 - 12)
         out.append('parse compound %s' % hx(bytes([0x80, 201, 0, 1]) + g.rawbytes(4) + big + bytes([0x80, 203, 0, 0])))
         out.append('parse packet %s' % hx(big))
-        return out
+        return out + huge_inputs(g)
     def relevant(self, line, impl, model):
         return kind_of(line) == 'parse'
     def proj(self, line, obs):
@@ -515,7 +621,7 @@ class C08(Prop):
             'that passes the version and type checks')
     def cases(self, g, tier, h):
         n = 600 if tier == 'quick' else 25000
-        out = gen_header_sweep(g, full=(tier != 'quick'))
+        out = gen_header_sweep(g, full=(tier != 'quick')) + huge_inputs(g)
         for e, b in gen_parse_inputs(g, h, n, malformed_ratio=0.6):
             out.append('parse %s %s' % (e, hx(b)))
             if g.chance(0.4):
@@ -596,22 +702,40 @@ class C18(Prop):
     rule = ('every parser (typed, generic, unknown, compound, report block, FCI) on mutated and random inputs; '
             'non-trivial = distinct rejected input')
     def cases(self, g, tier, h):
-        return gen_header_sweep(g, full=(tier != 'quick')) + gen_parse_mixed(g, h, 500 if tier == 'quick' else 20000, tier)
+        return gen_header_sweep(g, full=(tier != 'quick')) + huge_inputs(g) + gen_parse_mixed(g, h, 500 if tier == 'quick' else 20000, tier)
+    CONV_KEYS = ('conv', 'convv', 'pconv', 'pconvv')
+    CONV_TARGETS = ['app', 'bye', 'rr', 'sdes', 'sr', 'tfb', 'pfb']
     def relevant(self, line, impl, model):
-        return kind_of(line) == 'parse' and err_str(impl.get('r'))
+        # an error from the parser on either side, or a conversion (try_as / TryFrom) that can return one
+        return kind_of(line) == 'parse' and (err_str(impl.get('r')) or err_str(model.get('r')) or
+                                             any(k in impl for k in self.CONV_KEYS))
+    def _convs(self, obs):
+        out = []
+        for k in self.CONV_KEYS:
+            lst = S.parse(obs.get(k, '()')) or []
+            out.append(tuple(ser(x) if err_str(ser(x)) else 'ok' for x in lst))
+        return tuple(out)
     def proj(self, line, obs):
         r = obs.get('r', '')
-        return (r if err_str(r) else 'ok',)
+        return (r if err_str(r) else ('ok' if ok_str(r) else 'abnormal'), self._convs(obs))
     def nontrivial(self, line, impl):
-        return err_str(impl.get('r'))
+        return err_str(impl.get('r')) or any(k in impl for k in self.CONV_KEYS)
     def oracle(self, line, impl, model):
         r = impl.get('r', '')
-        e = perr_of(r)
-        if e is None:
-            return []
         entry = entry_of(line)
         b = input_of(line)
         fails = []
+        # errors returned by the conversions of an accepted packet: each is the target parser's error on the bytes
+        for k in self.CONV_KEYS:
+            for t, x in zip(self.CONV_TARGETS, S.parse(impl.get(k, '()')) or []):
+                ce = perr_of(ser(x))
+                if ce is not None:
+                    msg = truthful(t, b, ce, ENTRY_PT[t])
+                    if msg:
+                        fails.append('%s to %s: %s' % (k, t, msg))
+        e = perr_of(r)
+        if e is None:
+            return fails
         pt = ENTRY_PT.get(entry)
         if entry.startswith('custom'):
             pt = int(entry.split(':')[1])
@@ -719,6 +843,8 @@ class Engine:
             a, m = impl.get(i), model.get(i)
             if a is None or m is None:
                 raise Infra('no output for case: ' + line[:200])
+            if 'SKIPPED' in a:
+                continue
             if 'BADCASE' in a or 'BADCASE' in m:
                 if ('BADCASE' in a) != ('BADCASE' in m):
                     raise Infra('case rejected by one side only: %s / %s / %s' % (line[:200], a.get('BADCASE'), m.get('BADCASE')))
@@ -835,7 +961,14 @@ class Engine:
             widened = True
             g2 = G(self.seed * 7919 + 13)
             g2.in_compound = False
-            extra = []
+            # also look at the release build: an overflow that panics in debug wraps there and may surface as a
+            # wrong value or a wrong error
+            if not self.harness_rel:
+                try:
+                    self.harness_rel = runner.harness_build(release=True)
+                except Infra:
+                    self.harness_rel = None
+            extra = [mm['case'] for mm in ev['mism'][:50]]
             for mm in ev['mism'][:20]:
                 extra += self.pd.neighbours(g2, mm['case'])
             for k in range(4 if self.tier == 'quick' else 8):
